@@ -147,10 +147,14 @@ def build_call(L, tool, par, S, F, rec):
             return lambda: L.islice(S[0], a, b)
         return lambda: L.islice(S[0], a, b, c)
     if tool == "zip_longest":
-        return lambda: L.zip_longest(*S, fillvalue=Node("fill"))
+        fill = rec.first_item[0] if par.get("fill") == "first" and rec.first_item else Node("fill")
+        return lambda: L.zip_longest(*S, fillvalue=fill)
     if tool == "merge":
         return lambda: L.merge(*S, key=F("key") if par["key"] else None, reverse=par["rev"])
-    if tool in ("all", "any", "list", "tuple", "set", "dict"):
+    if tool == "dict":
+        kw = {"k1": Node("kw")} if par.get("kw") else {}
+        return lambda: L.dict(S[0], **kw)
+    if tool in ("all", "any", "list", "tuple", "set"):
         fn = getattr(L, tool)
         return lambda: fn(S[0])
     if tool == "sum":
@@ -236,7 +240,7 @@ def _items_for(tool, i, keys):
     if tool == "starmap":
         return [(x, x) for x in items]
     if tool == "dict":
-        return [(x, Node("val", (x,))) for x in items]
+        return [(f"k{x.k}", Node("val", (x,))) for x in items]
     return items
 
 
